@@ -350,6 +350,13 @@ C06_CONCAT = dict(
     raises=[("Must provide at least one ChunkedScoresHolder", 5)],
 )
 
-ALL = [C16_FILTER, C17_SAMPLE,
+C07_LOWER_TRI = dict(
+    file="src/batchie/distance_calculation.py", func="lower_triangular_indices",
+    out="SrcChunks.v", imports="Model.Chunks", name="src_lower_triangular_indices",
+    pyparams=["n"], params=[("n", "Z")], returns="list (Z * Z)", generator="(Z * Z)",
+    vars={"i": "Z", "j": "Z"},
+)
+
+ALL = [C16_FILTER, C17_SAMPLE, C07_LOWER_TRI,
        C10_INIT, C10_N_THETAS, C10_GET, C10_ADD, C10_IS_COMPLETE, C10_COMBINE, C10_CONCAT, C10_LOAD, C10_SAVE,
        C06_SELECT, C06_SCORE_CHUNK, C16_SELECT, C06_ADD_SCORE, C06_COMBINE, C06_MIN_SCORE, C06_CONCAT]
